@@ -36,7 +36,7 @@ from collada import material
 from collada import scene
 from collada.common import E, tagger, tag
 from collada.common import DaeError, DaeIncompleteError, DaeBrokenRefError, \
-    DaeMalformedError, DaeSaveValidationError
+    DaeMalformedError, DaeSaveValidationError, DaeRawLoadErrors
 from collada.util import IndexedList, _syncChildren
 from collada.xmlutil import createElementTree
 from collada.xmlutil import etree as ElementTree
@@ -247,6 +247,15 @@ class Collada(object):
         if not any(isinstance(error, mask) for mask in self.maskedErrors):
             raise
 
+    def handleRawLoadError(self, what, error):
+        """Report a built-in exception (one of :data:`common.DaeRawLoadErrors`) that
+        escaped from a loader because the data it was parsing is corrupted: it is
+        passed to :meth:`handleError` as a :class:`common.DaeMalformedError`."""
+        try:
+            raise DaeMalformedError('Corrupted %s (%s: %s)' % (what, type(error).__name__, error))
+        except DaeMalformedError as ex:
+            self.handleError(ex)
+
     def ignoreErrors(self, *args):
         """Add exceptions to the mask for ignoring or clear the mask if None given.
 
@@ -314,6 +323,8 @@ class Collada(object):
                             G = geometry.Geometry.load(self, {}, geomnode)
                         except DaeError as ex:
                             self.handleError(ex)
+                        except DaeRawLoadErrors as ex:
+                            self.handleRawLoadError('geometry', ex)
                         else:
                             self.geometries.append(G)
 
@@ -331,6 +342,8 @@ class Collada(object):
                             C = controller.Controller.load(self, {}, controlnode)
                         except DaeError as ex:
                             self.handleError(ex)
+                        except DaeRawLoadErrors as ex:
+                            self.handleRawLoadError('controller', ex)
                         else:
                             self.controllers.append(C)
 
@@ -345,6 +358,8 @@ class Collada(object):
                             A = animation.Animation.load(self, {}, animnode)
                         except DaeError as ex:
                             self.handleError(ex)
+                        except DaeRawLoadErrors as ex:
+                            self.handleRawLoadError('animation', ex)
                         else:
                             self.animations.append(A)
 
@@ -359,6 +374,8 @@ class Collada(object):
                             lig = light.Light.load(self, {}, lightnode)
                         except DaeError as ex:
                             self.handleError(ex)
+                        except DaeRawLoadErrors as ex:
+                            self.handleRawLoadError('light', ex)
                         else:
                             self.lights.append(lig)
 
@@ -373,6 +390,8 @@ class Collada(object):
                             cam = camera.Camera.load(self, {}, cameranode)
                         except DaeError as ex:
                             self.handleError(ex)
+                        except DaeRawLoadErrors as ex:
+                            self.handleRawLoadError('camera', ex)
                         else:
                             self.cameras.append(cam)
 
@@ -387,6 +406,8 @@ class Collada(object):
                             img = material.CImage.load(self, {}, imgnode)
                         except DaeError as ex:
                             self.handleError(ex)
+                        except DaeRawLoadErrors as ex:
+                            self.handleRawLoadError('image', ex)
                         else:
                             self.images.append(img)
 
@@ -401,6 +422,8 @@ class Collada(object):
                             effect = material.Effect.load(self, {}, effectnode)
                         except DaeError as ex:
                             self.handleError(ex)
+                        except DaeRawLoadErrors as ex:
+                            self.handleRawLoadError('effect', ex)
                         else:
                             self.effects.append(effect)
 
@@ -415,6 +438,8 @@ class Collada(object):
                             mat = material.Material.load(self, {}, materialnode)
                         except DaeError as ex:
                             self.handleError(ex)
+                        except DaeRawLoadErrors as ex:
+                            self.handleRawLoadError('material', ex)
                         else:
                             self.materials.append(mat)
 
@@ -432,6 +457,8 @@ class Collada(object):
                             tried_loading.append((node, ex))
                         except DaeError as ex:
                             self.handleError(ex)
+                        except DaeRawLoadErrors as ex:
+                            self.handleRawLoadError('node', ex)
                         else:
                             if N is not None:
                                 self.nodes.append(N)
@@ -446,6 +473,8 @@ class Collada(object):
                                 next_tried.append((node, ex))
                             except DaeError as ex:
                                 self.handleError(ex)
+                            except DaeRawLoadErrors as ex:
+                                self.handleRawLoadError('node', ex)
                             else:
                                 if N is not None:
                                     self.nodes.append(N)
@@ -470,6 +499,8 @@ class Collada(object):
                             S = scene.Scene.load(self, scenenode)
                         except DaeError as ex:
                             self.handleError(ex)
+                        except DaeRawLoadErrors as ex:
+                            self.handleRawLoadError('visual scene', ex)
                         else:
                             self.scenes.append(S)
 
@@ -486,6 +517,8 @@ class Collada(object):
                     raise DaeBrokenRefError('Default scene %s not found' % sceneid)
         except DaeError as ex:
             self.handleError(ex)
+        except DaeRawLoadErrors as ex:
+            self.handleRawLoadError('default scene reference', ex)
 
     def save(self):
         """Saves the collada document back to :attr:`xmlnode`"""
